@@ -42,6 +42,9 @@ Next == /\ kind = "hist" /\ Len(hist) < MaxOps /\ UNCHANGED kind
            \/ (Len(arg) >= 2 /\ Edit("delete_last", SubSeq(arg, 1, Len(arg) - 1)))
            \/ \E d \in {2, 5} : Edit("replace_last", Append(SubSeq(arg, 1, Len(arg) - 1), d))
            \/ \E d \in {3, 6} : Len(arg) < 4 /\ Edit("extend_str", Append(arg, d))
+\* simulation mode: long query/edit histories
+InitHist == kind = "hist" /\ arg = <<1>> /\ hist = <<>> /\ exp = WalkAll(Poly(<<2, 1>>, <<1>>, 1))
+Emit == Len(hist) >= 5 => PrintT(<<"CASE", arg, exp, hist>>)
 \* ---- sanity of the specification ------------------------------------------
 TVAtLeastChord == kind = "bez" => RLe(RMul(RAbs(R(arg[1][Len(arg[1])] - arg[1][1])), IF arg[2] = 1 THEN ROne ELSE R(5)), exp)
 WalkEnds == kind \in {"walk", "hist"} => (exp[1] # {} /\ exp[9] # {})
